@@ -276,12 +276,9 @@ def pp(draw, prof, n, redox, need=(), exclude=()):
     # a phase that is also an end-member of a solid solution of the cell would make the split between the two
     # reservoirs indeterminate (phase rule) -> never both
     pool = [m for m in P["minerals"] if m not in exclude]
+    # (Fluorite next to iron is generated on purpose: merge_redox once cut 'Fe(2)' to 'F' and erased the fluoride total
+    # of a solution read from SOLUTION_RAW / SOLUTION_MODIFY - fixed e622e202, replays/C10/fixed-solution-read-drops-F-*)
     fe_note = []
-    if redox != "inert" and "Fluorite" in pool:
-        # known finding: cxxNameDouble::merge_redox cuts 'Fe(2)' to 'F' and erases the fluoride total whenever a solution
-        # with Fe(2)/Fe(3) totals is read from SOLUTION_RAW / SOLUTION_MODIFY -> no fluoride source next to iron
-        pool.remove("Fluorite")
-        fe_note = ["excluded_fluoride_next_to_iron_valence_totals"]
     if redox != "inert":
         pool += P["minerals_fe"][:2] if redox == "o2" else P["minerals_fe"]
     names = _some(draw, pool, 1, 4)
@@ -395,11 +392,10 @@ def surf(draw, prof, n, eq_sol, pp_names, kin_rates, balanced):
         if balanced and draw(st.integers(0, 11)) == 0:
             model = "diffuse"          # explicit integration of the diffuse layer: slow, kept rare
         rel = draw(st.sampled_from(["", "", "", "phase", "kin"]))
-        if rel == "kin":
-            # known finding: update_kin_surface (tidy.cpp) zeroes the charge balance of a surface tied to a kinetic
-            # reactant whenever SURFACE*/KINETICS* keywords are read -> the restored surface loses its charge
+        if rel == "kin" and not kin_rates:
             rel = ""
-            labels.append("excluded_surface_related_to_kinetics")
+        # (surfaces tied to a kinetic reactant are generated on purpose: update_kin_surface once zeroed their charge
+        # balance at every SURFACE*/KINETICS* read - fixed c81b595d, replays/C10/fixed-surface-related-to-kinetics-*)
         if model == "diffuse":
             equil, rel = True, ""
         w = draw(cg.logu(1e-5, 5e-3, 3))
